@@ -4,6 +4,7 @@
 //   relpath <t> <base>      -> t relative to base (or "ERR ...")
 //   abs <cwd> <p>           -> abs_path(cwd, p)
 //   dofiles <abs target>    -> candidates "dodir|dofile" joined by TAB
+//   metaparse <line>        -> OK<US>kind<US>pid<US>timestamp<US>text[<US>rv<US>name] or ERR
 // Output: one line per request.  Bytes are passed through unchanged (paths are OsStr).
 use std::ffi::OsStr;
 use std::io::{self, BufRead, Write};
@@ -52,6 +53,19 @@ fn main() {
                     out.write_all(df.do_dir().as_os_str().as_bytes()).unwrap();
                     out.write_all(b"|").unwrap();
                     out.write_all(df.do_file().as_bytes()).unwrap();
+                }
+            }
+            b"metaparse" => {
+                // Meta::parse on the raw bytes (lossy UTF-8: the alphabets used are ASCII)
+                let text = String::from_utf8_lossy(parts.get(1).copied().unwrap_or(b"")).into_owned();
+                match redo::logs::Meta::parse(&text) {
+                    Ok(m) => {
+                        write!(out, "OK\x1f{}\x1f{}\x1f{}\x1f{}", m.kind(), m.pid().as_raw(), m.timestamp(), m.text()).unwrap();
+                        if let Some((rv, name)) = m.done_text() {
+                            write!(out, "\x1f{}\x1f{}", rv, name).unwrap();
+                        }
+                    }
+                    Err(_) => write!(out, "ERR").unwrap(),
                 }
             }
             _ => write!(out, "ERR unknown request").unwrap(),
